@@ -525,3 +525,25 @@ theorem readAttr_writeAttr (a : Attr) (hm : a.mode < 4294967296)
   rw [hxs, hsz, huid, hgid, hdj, hdn, hmt, hln, hmode, hnl]
 
 end SV.Toc
+
+namespace SV.Toc
+
+/-! ## bolt buckets -/
+
+theorem get_filter_ne (b : Bolt) (a c : Nat) (h : c ≠ a) :
+    Bolt.get (b.filter (·.1 ≠ a)) c = Bolt.get b c := by
+  induction b with
+  | nil => rfl
+  | cons x xs ih =>
+    by_cases hx : x.1 = a
+    · simp only [List.filter, hx, ne_eq, not_true_eq_false, decide_false]
+      rw [ih]
+      obtain ⟨i, t⟩ := x
+      simp only at hx
+      simp [Bolt.get, hx, Ne.symm h]
+    · obtain ⟨i, t⟩ := x
+      simp only at hx
+      simp only [List.filter, ne_eq, hx, not_false_eq_true, decide_true, Bolt.get]
+      rw [ih]
+
+end SV.Toc
